@@ -27,6 +27,8 @@ func init() {
 			{ID: "C05-R5", Doc: "Task literals carry their partitioning", Run: c05r5},
 			{ID: "C05-R6", Doc: "generated kernels in sync with the generator", Run: c05r6},
 			{ID: "C05-R7", Doc: "memoised compilations are keyed by (or restricted to zero of) every partitioning field", Run: c05r7},
+			{ID: "C05-R8", Doc: "row i is buffered for partition shards[i], once, and every buffered row is written", Run: c05r8},
+			{ID: "C11-R1", Doc: "hash and comparison address row i of a view at storage index i+off, so a key's shard does not depend on its position in a vector (shared)", Run: c11r1},
 		},
 	})
 }
@@ -186,6 +188,27 @@ func c05r1(c *RC) {
 			bad := impureUses(fn.Pkg, fn.Decl, fn.Body, nil, nil)
 			c.Check(len(bad) == 0, q+"|pure", pr.Pos(fn.Body.Pos()), q+" "+strings.Join(bad, "; "))
 		}
+	}
+	// partitioner closures: called by several tasks of one process at once, so
+	// they must not write to state shared through their enclosing function
+	if pt := pr.lookupType("", "Partitioner"); pt != nil {
+		np := 0
+		for _, pk := range []string{"", "exec"} {
+			for _, f := range pr.FuncsIn(pk) {
+				if f.Lit == nil {
+					continue
+				}
+				tv := f.Pkg.Info.Types[f.Lit]
+				if tv.Type == nil || !types.Identical(tv.Type.Underlying(), pt.Underlying()) {
+					continue
+				}
+				np++
+				w := capturedWrites(f, f.Lit)
+				c.Check(len(w) == 0, f.QName()+"|partitioner-closure-writes-nothing-shared", pr.Pos(f.Lit.Pos()),
+					"this partitioner closure writes to "+strings.Join(w, ", ")+", captured from the function that built it: the tasks of a slice run concurrently in one process and share the closure, so one task's rows are partitioned with another task's values — a row is not in the shard its function returned")
+			}
+		}
+		c.Floor("partitioner closures", np, 1)
 	}
 	if fn := c.MustFn("exec.defaultPartitioner"); fn != nil {
 		bad := impureUses(fn.Pkg, fn.Decl, fn.Body, nil, map[string]bool{"frame.Frame.Hash": true})
@@ -387,6 +410,7 @@ func depShuffleOf(pr *Prog, typeName string) (shuffle string, partitioner string
 }
 
 func c05r3(c *RC) {
+	c05constructorsRedistribute(c)
 	pr := c.P
 	must := []string{"reduceSlice", "foldSlice", "cogroupSlice", "reshuffleSlice", "reshardSlice"}
 	for _, t := range must {
